@@ -28,7 +28,7 @@ use std::fmt::Write as _;
 use std::io::Write;
 use std::path::PathBuf;
 
-pub const KINDS: &[&str] = &["c11"];
+pub const KINDS: &[&str] = &["c11", "c11h"];
 
 type Edit = Vec<(Vec<i32>, bool)>; // (clause, is_add)
 
@@ -590,7 +590,84 @@ fn run_reduce(ctx: &Ctx, rng: &mut Rng, out: &mut dyn Write) {
     out.write_all(s.as_bytes()).unwrap();
 }
 
-pub fn run(_kind: &str, ctx: &Ctx, out: &mut dyn Write) {
+/// `c11h`: replays hand-written histories (one per line of the file named by C11_HISTORIES):
+///   cnf <n> : <clause> ; <clause> ... :: add 1 2 ; rmv 3 :: add 4 ...
+///   d4 <n> : <d4 line> ; <d4 line> ... :: add 1 :: rmv 1
+///   c2d <n> : <c2d line> ; ... :: ...
+fn run_histories(out: &mut dyn Write) {
+    cnfc::register();
+    let file = std::env::var("C11_HISTORIES").expect("C11_HISTORIES=<file>");
+    let text = std::fs::read_to_string(&file).expect("cannot read the history file");
+    let dir = scratch_dir();
+    let path = dir.join("start.cnf");
+    for (k, line) in text.lines().enumerate() {
+        let line = line.trim();
+        if line.is_empty() || line.starts_with('#') {
+            continue;
+        }
+        let parts: Vec<&str> = line.split("::").collect();
+        let head: Vec<&str> = parts[0].splitn(2, ':').collect();
+        let ht: Vec<&str> = head[0].split_whitespace().collect();
+        let (fmt, n) = (ht[0], ht[1].parse::<u32>().unwrap());
+        let body: Vec<String> = head.get(1).unwrap_or(&"").split(';').map(|x| x.trim().to_string()).filter(|x| !x.is_empty()).collect();
+        let mut s = String::new();
+        writeln!(s, "case c11h-{} C11", k).unwrap();
+        writeln!(s, "info {}", line).unwrap();
+        let loaded = if fmt == "cnf" {
+            let cnf: Cnf = body.iter().map(|c| c.split_whitespace().map(|x| x.parse().unwrap()).collect()).collect();
+            writeln!(s, "mode cnf").unwrap();
+            writeln!(s, "n {}", n).unwrap();
+            writeln!(s, "src_cnf {}", body.join(" ; ")).unwrap();
+            cnfc::write_dimacs(&path, &cnf, n);
+            let p2 = path.clone();
+            guarded(move || Ddnnf::from_file(&p2, None))
+        } else {
+            writeln!(s, "mode nnf {}", fmt).unwrap();
+            writeln!(s, "n {}", n).unwrap();
+            let r = load(&body, Some(n));
+            if let Ok(d) = &r {
+                // the truth table of the loaded vector stands in for the source formula
+                let mut ms = Vec::new();
+                let mut d2 = d.clone();
+                for a in 0..(1u32 << n) {
+                    if d2.execute_query(&mask_to_cfg(a, n)) > BigInt::zero() {
+                        ms.push(a);
+                    }
+                }
+                writeln!(s, "src_models {}", join(&ms)).unwrap();
+            }
+            s.push_str(&file_block(fmt, &body));
+            r
+        };
+        match loaded {
+            Err(e) => writeln!(s, "impl panic-load {}", e).unwrap(),
+            Ok(mut d) => {
+                writeln!(s, "step 0 load").unwrap();
+                battery(&mut d, &mut s, 7);
+                for (i, et) in parts.iter().skip(1).enumerate() {
+                    let e: Edit = et
+                        .split(';')
+                        .map(|c| {
+                            let t: Vec<&str> = c.split_whitespace().collect();
+                            (t[1..].iter().map(|x| x.parse().unwrap()).collect(), t[0] == "add")
+                        })
+                        .collect();
+                    if !apply(&mut d, i + 1, &e, &mut s, 11 + i as u64) {
+                        break;
+                    }
+                }
+            }
+        }
+        writeln!(s, "end").unwrap();
+        out.write_all(s.as_bytes()).unwrap();
+    }
+    let _ = std::fs::remove_dir_all(&dir);
+}
+
+pub fn run(kind: &str, ctx: &Ctx, out: &mut dyn Write) {
+    if kind == "c11h" {
+        return run_histories(out);
+    }
     let mut rng = Rng::new(ctx.seed ^ 0x5eed_0011);
     let which = std::env::var("C11_PART").unwrap_or_default();
     if which.is_empty() || which == "rc" {
